@@ -58,7 +58,18 @@ func goEnv() []string {
 		}
 		env = append(env, e)
 	}
-	return append(env, "GOFLAGS=-mod=mod", "GOPROXY=off", "GOTOOLCHAIN=auto", "GONOSUMDB=pgregory.net")
+	env = append(env, "GOFLAGS=-mod=mod", "GOPROXY=off", "GOTOOLCHAIN=auto", "GONOSUMDB=pgregory.net")
+	if c := os.Getenv("VERIF_PROJECT_GOCACHE"); c != "" {
+		// thorough tier: what compiling the generated projects leaves behind goes to the run's scratch directory
+		kept := env[:0:0]
+		for _, e := range env {
+			if !strings.HasPrefix(e, "GOCACHE=") {
+				kept = append(kept, e)
+			}
+		}
+		env = append(kept, "GOCACHE="+c)
+	}
+	return env
 }
 
 type built struct {
